@@ -4,6 +4,7 @@ import (
 	"crypto/sha256"
 	"encoding/hex"
 	"fmt"
+	"io"
 
 	"verifsim/gen"
 	"verifsim/sim/rt"
@@ -175,13 +176,22 @@ func (w *C16) Run(t *rt.Tape, trace bool, seed uint64) *core.Result {
 	in := gen.Inputs(t, circ)
 	kind := []int{OTCO, OTCO, OTCO, OTCOT, OTCOTMal, OTRSA1024, OTCO, OTCOT}[t.Choose(rt.SGen, 8)]
 	want := gen.Eval(circ, in)
+	// In a quarter of the cases the garbler's randomness source delivers short reads at every
+	// multiple of a block size (a buffered reader; the block is a multiple of 16 and at least 32,
+	// so the code's own key- and label-sized reads stay whole, a larger bulk read would not).
+	var garbleRand func(io.Reader) io.Reader
+	if t.Choose(rt.SGen, 4) == 0 {
+		block := []int{32, 48, 64, 160, 4096}[t.Choose(rt.SGen, 5)]
+		garbleRand = func(r io.Reader) io.Reader { return &simrand.ShortReader{R: r, Block: block} }
+		res.Reach["garbler-randomness.short-reads-at-block-boundaries"]++
+	}
 	smp := Sample{Circuit: gen.Describe(circ), X: in[0].Text(16), Y: in[1].Text(16), OT: OTNames[kind], GE: core.DescribeDir(dir), EG: core.DescribeDir(dir)}
 	res.Class = "whole-circuit ot=" + OTNames[kind]
 	h := sha256.New()
 
 	// clean reference session: transcript lengths
 	rt.AllocPeak = 0
-	ref := Run(t, Session{Circ: circ, X: in[0], Y: in[1], OT: kind, Pipe: pipe, Trace: false})
+	ref := Run(t, Session{Circ: circ, X: in[0], Y: in[1], OT: kind, Pipe: pipe, Trace: false, GarbleRand: garbleRand})
 	// The corrupted sessions run on a machine with 8 times the memory the clean
 	// session needed per request: a corrupted count then ends in an allocation
 	// failure (a crashed party) instead of hours of work on 2^24 phantom wires.
@@ -215,7 +225,7 @@ func (w *C16) Run(t *rt.Tape, trace bool, seed uint64) *core.Result {
 		simnet.Reset()
 		p := pipe
 		p.AB.Faults, p.BA.Faults = ge, eg
-		o := Run(t, Session{Circ: circ, X: in[0], Y: in[1], OT: kind, Pipe: p, Trace: trace, AbortOnStall: true})
+		o := Run(t, Session{Circ: circ, X: in[0], Y: in[1], OT: kind, Pipe: p, Trace: trace, AbortOnStall: true, GarbleRand: garbleRand})
 		h.Write([]byte(o.RR.Hash))
 		res.Steps += o.RR.Steps
 		res.Switches += o.RR.Switches
